@@ -394,7 +394,50 @@ def arg_decode(text, typ):
 
 
 class _Str(str):
-    """an equal but never identical text value: identity tests (`is`) on strings only work by accident of interning"""
+    """an equal but never identical text value: identity tests (`is`) on strings only work by accident of interning.
+    Its display forms (format / str / repr) are deliberately NOT the value: a result may only depend on the characters."""
+
+    def __format__(self, spec):
+        return "<text>"
+
+    def __str__(self):
+        return "<text>"
+
+    def __repr__(self):
+        return "<text>"
+
+
+class _Int(int):
+    """an equal but never identical integer (IntEnum members, bool and user subclasses are ints too)"""
+
+
+class debug_logging:
+    """context manager: DEBUG logging switched on for the root logger and every psec logger (with a null handler)"""
+
+    def __enter__(self):
+        import logging
+        self.logging = logging
+        self.root = logging.getLogger()
+        self.old = (self.root.level, logging.root.manager.disable)
+        self.sink = logging.NullHandler()
+        self.root.addHandler(self.sink)
+        self.root.setLevel(logging.DEBUG)
+        logging.disable(logging.NOTSET)
+        self.touched = []
+        for name in list(logging.root.manager.loggerDict):
+            if name.startswith("psec"):
+                lg = logging.getLogger(name)
+                self.touched.append((lg, lg.level))
+                lg.setLevel(logging.DEBUG)
+        return self
+
+    def __exit__(self, *exc):
+        self.root.setLevel(self.old[0])
+        self.root.removeHandler(self.sink)
+        self.logging.disable(self.old[1])
+        for lg, lv in self.touched:
+            lg.setLevel(lv)
+        return False
 
 
 def call_result(cases, check_impl=None, nontrivial=None, rule="", model_args=None, extra_samples=3):
@@ -466,7 +509,25 @@ def call_result(cases, check_impl=None, nontrivial=None, rule="", model_args=Non
     with_bytes = [u for u in uniq if any(isinstance(a, (bytes, str)) for a in u[1])]
     carrier = 0
     for fn, args, line in (with_bytes if len(with_bytes) <= 1500 else pick.sample(with_bytes, 1500)):
-        a2 = tuple(bytearray(a) if isinstance(a, bytes) else (_Str(a) if type(a) is str else a) for a in args)
+        a2 = tuple(bytearray(a) if isinstance(a, bytes) else (_Str(a) if type(a) is str else (_Int(a) if type(a) is int else a)) for a in args)
+        # a memoryview over a slice of a LARGER buffer: where the function accepts the view at all, only the viewed bytes count
+        if any(isinstance(a, bytes) and a for a in args):
+            a3 = tuple(memoryview(b"\xa5" * 16 + a + b"\x5a" * 16)[16:16 + len(a)] if isinstance(a, bytes) else a for a in args)
+            try:
+                raw3 = (core.FUNCS[fn] if isinstance(fn, str) else fn)(*a3)
+                i3 = ("OK", core.show(raw3))
+            except Exception:  # noqa: BLE001
+                i3 = None            # views are not accepted everywhere on the pinned tree either: only values are compared
+            if i3 is not None and mres[line][0] == "OK" and i3 != mres[line]:
+                diffs.append({"fn": fn, "args": [core.show(a) for a in args], "impl": list(i3), "model": list(mres[line]),
+                              "pass": "byte strings passed as memoryview slices of a larger buffer"})
+                if check_impl:
+                    v = check_impl(fn, args, i3)
+                    if v:
+                        v = dict(v)
+                        v["input"] = {"fn": fn, "args": [core.show(a) for a in args]}
+                        v["note"] = "byte-string arguments passed as memoryview slices of a larger buffer"
+                        viol.append(v)
         try:
             raw = (core.FUNCS[fn] if isinstance(fn, str) else fn)(*a2)
             i = ("OK", core.show(raw))
@@ -520,6 +581,43 @@ def call_result(cases, check_impl=None, nontrivial=None, rule="", model_args=Non
                             v["note"] = "only when the call is written as: " + label
                             viol.append(v)
     dist["pass:call_styles"] = styled
+    # logging pass: the host application has DEBUG logging switched on for every logger (diagnostics must not change results)
+    import logging as _logging
+    root = _logging.getLogger()
+    old_level, old_disable = root.level, _logging.root.manager.disable
+    sink = _logging.NullHandler()
+    root.addHandler(sink)
+    root.setLevel(_logging.DEBUG)
+    _logging.disable(_logging.NOTSET)
+    touched = []
+    for name in list(_logging.root.manager.loggerDict):
+        lg = _logging.getLogger(name)
+        if name.startswith("psec"):
+            touched.append((lg, lg.level))
+            lg.setLevel(_logging.DEBUG)
+    nlog = 0
+    try:
+        for fn, args, line in (uniq if len(uniq) <= 800 else pick.sample(uniq, 800)):
+            i = core.impl_call(fn, args)
+            nlog += 1
+            if i != mres[line]:
+                diffs.append({"fn": fn, "args": [core.show(a) for a in args], "impl": list(i), "model": list(mres[line]), "pass": "DEBUG logging enabled"})
+                if check_impl:
+                    v = check_impl(fn, args, i)
+                    if v:
+                        v = dict(v)
+                        v["input"] = {"fn": fn, "args": [core.show(a) for a in args]}
+                        v["note"] = "only when DEBUG logging is enabled in the host application (logging.getLogger().setLevel(logging.DEBUG))"
+                        viol.append(v)
+                if len(diffs) > 40:
+                    break
+    finally:
+        root.setLevel(old_level)
+        root.removeHandler(sink)
+        _logging.disable(old_disable)
+        for lg, lv in touched:
+            lg.setLevel(lv)
+    dist["pass:debug_logging"] = nlog
     # fourth pass: the same calls executed by 8 threads in shuffled order at a minimal switch interval; every function
     # compared here is deterministic, so each result must still be the model's
     work = uniq if len(uniq) <= 2500 else pick.sample(uniq, 2500)
